@@ -106,6 +106,35 @@ def build_harness(profile="release"):
     return b
 
 
+_cli_built = {}
+
+
+def build_cli(profile="release", bins=("ymqs", "ymcls")):
+    """Builds the command-line programs of REPO itself (no verification cfg) from its current tree into a target
+    directory under work/; returns {name: path}.  profile "relcheck" = release + debug assertions + overflow checks."""
+    if profile in _cli_built:
+        return _cli_built[profile]
+    tdir = os.path.join(WORK, "h-" + repo_key(), "cli-target-" + profile)
+    cmd = ["cargo", "build", "--offline", "--release", "--manifest-path", os.path.join(REPO, "Cargo.toml"), "--target-dir", tdir]
+    for b in bins:
+        cmd += ["--bin", b]
+    env = dict(os.environ, CARGO_NET_OFFLINE="true")
+    env.pop("RUSTFLAGS", None)
+    if profile == "relcheck":
+        env["CARGO_PROFILE_RELEASE_DEBUG_ASSERTIONS"] = "true"
+        env["CARGO_PROFILE_RELEASE_OVERFLOW_CHECKS"] = "true"
+    t0 = time.time()
+    # cwd = REPO: the harness directory's .cargo/config.toml (verification cfg) must not apply to the product itself
+    os.makedirs(tdir, exist_ok=True)
+    p = subprocess.run(cmd, cwd=REPO, env=env, stdout=subprocess.PIPE, stderr=subprocess.STDOUT, text=True)
+    if p.returncode != 0:
+        log(p.stdout[-6000:])
+        raise ToolError("build of the command-line programs failed (profile %s)" % profile)
+    log("[build] ymqs/ymcls %s in %.1fs" % (profile, time.time() - t0))
+    _cli_built[profile] = {b: os.path.join(tdir, "release", b) for b in bins}
+    return _cli_built[profile]
+
+
 def run_driver(args, out, profile="release", timeout=1800, env=None, stdin=None, allow_death=False):
     """Runs `ymqv <args> --out <out>`; the driver itself never fails because of the code under test
     (panics and hangs are events), so a non-zero status is a tool error."""
